@@ -16,10 +16,13 @@ from typing import Any, Dict, List
 from . import core, docs, doccheck, tlc
 from .surface import print_doc
 
+_SHARED_INSTANCE = None
 ROUTES = ['ctor_str', 'ctor_path', 'ctor_file', 'static_parse', 'instance_parse',
           'parse_file_str', 'parse_file_path', 'parse_file_file',
           # an open TEXT file is text whatever its encoding: a handle opened on a UTF-16 file
-          'ctor_file_utf16', 'parse_file_file_utf16']
+          'ctor_file_utf16', 'parse_file_file_utf16',
+          # one PyDBML() instance used again and again (same and other texts, same and other options)
+          'instance_reused']
 BAD = ['bytes', 'int', 'list', 'StringIO', 'float', 'tuple', 'int0', 'bytes_empty', 'list_empty', 'tuple_empty', 'float0', 'false', 'dict_empty',
        'pathlike', 'bytearray', 'bytes_path', 'purepath']
 
@@ -71,6 +74,11 @@ def _call(route: str, text: str, bom: bool, opts: Dict[str, bool], tmpdir: str):
         db = PyDBML.parse(src, **kw)
     elif route == 'instance_parse':
         db = PyDBML().parse(src, **kw)
+    elif route == 'instance_reused':
+        global _SHARED_INSTANCE
+        if _SHARED_INSTANCE is None:
+            _SHARED_INSTANCE = PyDBML()
+        db = _SHARED_INSTANCE.parse(src, **kw)
     elif route == 'parse_file_str':
         db = PyDBML.parse_file(fn)
     elif route == 'parse_file_path':
